@@ -134,6 +134,30 @@ def check_cross(ck: Checker, scn, cw, m, tag, prop="C09"):
                  f"{tag}: {name} is not a correlation matrix (diagonal {np.round(np.diag(R).real, 9).tolist()})")
     except Exception as e:  # noqa
         ck.d(False, prop, "C09_CorrelationsGenuine", f"{tag}: correlation metrics raised {type(e).__name__}: {str(e)[:120]}")
+    # homogeneous / heterogeneous patterns are Pearson correlations between a field and the score series
+    # (full-column-rank fields only: with a null direction and no PCA the un-whitening of a whitened field is not determined)
+    if cw.px == len(scn["cfg"]["sx"]) and cw.py == len(scn["cfg"]["sy"]):
+        try:
+            (h1, h2), _ = m.homogeneous_patterns()
+            (e1, e2), _ = m.heterogeneous_patterns()
+            Xv, Yv = np.asarray(cw.X().values), np.asarray(cw.Y().values)
+
+            def corr(F, S):
+                Fc, Sc = F - F.mean(0), S - S.mean(0)
+                num = Fc.conj().T @ Sc if False else (Fc.T @ Sc.conj())
+                den = np.sqrt((np.abs(Fc) ** 2).sum(0))[:, None] * np.sqrt((np.abs(Sc) ** 2).sum(0))[None, :]
+                return num / np.where(den > 0, den, np.nan)
+            for name, got, F, S in (("left homogeneous", h1, Xv, s1), ("right homogeneous", h2, Yv, s2), ("left heterogeneous", e1, Xv, s2), ("right heterogeneous", e2, Yv, s1)):
+                G = np.asarray(got.transpose(..., "mode").values)
+                fin = np.isfinite(G)
+                ck.p((np.abs(G[fin]) <= 1 + 1e-9).all(), prop, "C09_CorrelationsGenuine", f"{tag}: {name} pattern has values outside [-1, 1] (max {np.abs(G[fin]).max(initial=0):.6f})")
+                if not np.iscomplexobj(F):
+                    R = corr(F, S)
+                    nz = [i for i in range(k) if pred["sig75"][i] > 0]
+                    ok = np.nanmax(np.abs(np.abs(G[:, nz]) - np.abs(R[:, nz]))) <= 1e-7 if nz else True
+                    ck.m(bool(ok), prop, "C09_CorrelationsGenuine", f"{tag}: {name} pattern differs from the Pearson correlation of the field with the score series")
+        except Exception as e:  # noqa
+            ck.d(False, prop, "C09_CorrelationsGenuine", f"{tag}: homogeneous/heterogeneous patterns raised {type(e).__name__}: {str(e)[:120]}")
     # MCA: orthonormal components, squared covariance fractions
     al = pred["alpha"]
     if al == [2, 2]:
